@@ -49,8 +49,11 @@ def _wrap_reserve(cls, name, orig, side):
             raise
         if ctx.rec is not None and filt is None and sh.kind == "filter":
             ctx.rec.filter = getattr(tok, "filter", None)
+        late = ctx.rec is None
         mon.record(sh.label, name, getattr(ctx.rec, "seq", None), "prio", prio, "granted" if tok.triggered else "pending")
         mon.end_reserve(ctx, tok, None)
+        if late and ctx.rec is not None and filt is None and sh.kind == "filter":
+            ctx.rec.filter = getattr(tok, "filter", None)     # token registered only now (not created with env.event())
         for h in mon.call_hooks:
             h(sh, {"op": name, "rec": ctx.rec, "cls": "ok"}, tok, None)
         return tok
